@@ -2932,7 +2932,7 @@ def _put_slice_Call_ClassDef_keywords(
     exprs_field = 'args' if ast.__class__ is Call else 'bases'
     exprs = getattr(ast, exprs_field)
 
-    if exprs and start != stop and body[start].f.loc < exprs[-1].f.loc:
+    if exprs and start < len(body) and (start != stop or code is not None) and body[start].f.loc < exprs[-1].f.loc:  # also for a pure insertion (start == stop with code), its position among the interleaved args is not `start + nexprs`
         raise NodeError(f'cannot put to {ast.__class__.__name__}.keywords slice because it precedes {exprs_field}'
                         f", try the '_{exprs_field}' field")
 
